@@ -691,7 +691,12 @@ class Exec:
         b = self.prog.under(k_its)
         sa = [x['sig'] for x in a.get('methods', []) if x['name'] == m]
         sb = [x['sig'] for x in b.get('methods', []) if x['name'] == m]
-        return bool(sa) and sa == sb and False
+        if not (bool(sa) and sa == sb):
+            return False
+        # the contract's interface must be a sub-set of the invoked interface (embedding)
+        am = {x['name'] for x in a.get('methods', [])}
+        bm = {x['name'] for x in b.get('methods', [])}
+        return bm <= am
 
     def resolve_static(self, name):
         from . import models
@@ -1069,9 +1074,8 @@ class Exec:
             raise Unsupported('boolean binop ' + op)
         if s == 'Str':
             if op == '+':
-                f = vc.ufun('gs.concat', ['Str', 'Str'], 'Str')
-                self.setv(ins, V('(%s %s %s)' % (f, x.term, y.term), 'Str', ts))
-                vc.need_concat = True
+                from .models import str_concat
+                self.setv(ins, V(str_concat(vc, x.term, y.term), 'Str', ts))
                 return
             raise Unsupported('string binop ' + op)
         if s in ('F64', 'F32'):
